@@ -143,11 +143,12 @@ included), and the key is closed by `>` -/
 theorem macro_tag_grammar :
     (∀ c, isHead1 c = tagStart c ∧ isHead2 c = tagStart c ∧ isTail1 c = tagChar c ∧ isTail2 c = tagChar c) ∧
     Gen.Dis.tailMin1 = 0 ∧ Gen.Dis.tailMin2 = 0 ∧ Gen.Dis.keyMin = 1 ∧ keyStop = '>' := by
-  refine ⟨fun c => ?_, by decide, by decide, by decide, by decide⟩
-  have h95 : ∀ n : Nat, (decide (95 ≤ n) && decide (n ≤ 95)) = (n == 95) := by
-    intro n; rw [Bool.eq_iff_iff]; simp; omega
-  simp [isHead1, isHead2, isTail1, isTail2, inRanges, Gen.Dis.head1, Gen.Dis.head2, Gen.Dis.tail1, Gen.Dis.tail2,
-    tagStart, tagChar, h95, Bool.or_assoc]
+  refine ⟨fun c => ⟨?_, ?_, ?_, ?_⟩, by decide, by decide, by decide, by decide⟩ <;>
+  -- whatever order the ranges are listed in: both sides are propositional combinations of bounds on `c.toNat`
+  · rw [Bool.eq_iff_iff]
+    simp [isHead1, isHead2, isTail1, isTail2, inRanges, Gen.Dis.head1, Gen.Dis.head2, Gen.Dis.tail1, Gen.Dis.tail2,
+      tagStart, tagChar]
+    try omega
 
 /-- every `$name` with `name` a tag name (taken as long as possible) is a match … -/
 theorem tag_macro_matches (n after : List Char) (hn : IsTagName n)
